@@ -62,6 +62,18 @@ pub fn run(rep: &mut Report) {
         let lim = Limits::new(200, if thorough { 3_000_000 } else { 150_000 }, if thorough { 240.0 } else { 12.0 });
         run_cfg::<u16>(rep, cfg, lim, thorough);
     }
+    // 32-bit packet identifiers (broker-cluster use): same rules, one client and one server configuration
+    for (role, ver) in [(RoleK::Client, Ver::V5), (RoleK::Server, Ver::V4)] {
+        let mut c = EpCfg::new(&cfg_name("c06-u32", role, Some(ver), "auto=false offline=true"), role, Some(ver));
+        c.offline = true;
+        c.window = 2;
+        c.alph = session_alph(ver == Ver::V5, 2);
+        c.alph.second_connack = true;
+        c.alph.erase = true;
+        c.alph.defer_pubrel = true;
+        c.groups = vec!["c06"];
+        run_cfg::<u32>(rep, c, Limits::new(200, 300_000, 30.0), false);
+    }
     for f in ["c06.stored", "c06.pubrel-stored", "c06.resume-retransmit", "ack.matching", "ack.unexpected", "session.resumed", "session.not-present", "session.clean-start", "c06.erase", "pub.accepted-not-sent", "pub.refused", "c17.connack-on-established"] {
         rep.floor(f, 1);
     }
